@@ -484,11 +484,21 @@ Definition op_floordiv (s : state) (o : obj) (vs : list (option obj)) :=
 Definition op_shift (dir : bool) (s : state) (t : obj) (vs : list (option obj)) :=
   set_links dir s t (map Some (fwd dir (get (hp s) t)) ++ vs).
 
-(* on an (immutable) task list: a loop over its elements - not atomic across elements *)
-Definition lst_shift (dir : bool) (s : state) (ts : list obj) (vs : list (option obj)) :=
+(* An operation that calls several relation setters in a row saves the relations of the tasks involved and
+   puts them back when one of the calls raises (task.py, _AllOrNothing): all of the calls take effect or
+   none does.  [.._seq] is the bare sequence of calls (the code before that repair: not atomic). *)
+Definition all_or_nothing (s : state) (r : state * outcome) : state * outcome :=
+  match snd r with Ok _ => r | _ => (s, snd r) end.
+
+(* on an (immutable) task list: a loop over its elements *)
+Definition lst_shift_seq (dir : bool) (s : state) (ts : list obj) (vs : list (option obj)) :=
   seq_calls (fun s' t => op_shift dir s' t vs) s ts.
-Definition lst_set_parent (s : state) (ts : list obj) (p : option obj) :=
+Definition lst_set_parent_seq (s : state) (ts : list obj) (p : option obj) :=
   seq_calls (fun s' t => set_parent s' t p) s ts.
+Definition lst_shift (dir : bool) (s : state) (ts : list obj) (vs : list (option obj)) :=
+  all_or_nothing s (lst_shift_seq dir s ts vs).
+Definition lst_set_parent (s : state) (ts : list obj) (p : option obj) :=
+  all_or_nothing s (lst_set_parent_seq s ts p).
 
 (* ================= WBS ================= *)
 Definition wroot (s : state) (w : wid) : obj := nth w (wroots s) O.
@@ -533,7 +543,7 @@ Definition new_task (s : state) (i : Z) (pr : option Z) (nm : list Z) (e : optio
   end.
 
 (* Task(id, parent=, children=, successors=, predecessors=): the setters one after the other (F10) *)
-Definition new_task_rel (s : state) (i : Z) (nm : list Z) (p : option obj)
+Definition new_task_rel_seq (s : state) (i : Z) (nm : list Z) (p : option obj)
            (ch : option (list (option obj))) (su pr : list (option obj)) : state * outcome :=
   let t := length (hp s) in
   let s0 := alloc s (mkT i None [] [] [] None false None nm None) in
@@ -541,6 +551,11 @@ Definition new_task_rel (s : state) (i : Z) (nm : list Z) (p : option obj)
   andthen (match ch with Some c => set_children s1 t c | None => (s1, OK) end) (fun s2 =>
   andthen (match su with [] => (s2, OK) | _ => set_succs s2 t su end) (fun s3 =>
            match pr with [] => (s3, OK) | _ => set_preds s3 t pr end))).
+
+(* a constructor that raises leaves no task behind and nothing changed *)
+Definition new_task_rel (s : state) (i : Z) (nm : list Z) (p : option obj)
+           (ch : option (list (option obj))) (su pr : list (option obj)) : state * outcome :=
+  all_or_nothing s (new_task_rel_seq s i nm p ch su pr).
 
 Definition new_wbs (s : state) : state * outcome :=
   let r := length (hp s) in
